@@ -71,7 +71,7 @@ fn single<T: Real + Elem>(pl: &Planned<T>, chunk: &[Complex<T>]) -> Option<Vec<C
     let mut buf = chunk.to_vec();
     let mut s = vec![czero::<T>(); pl.adv[0]];
     let f = pl.fft.clone();
-    std::panic::catch_unwind(std::panic::AssertUnwindSafe(|| f.process_with_scratch(&mut buf, &mut s))).ok()?;
+    crate::calls::lib_catch((|| f.process_with_scratch(&mut buf, &mut s))).ok()?;
     Some(buf)
 }
 
@@ -82,8 +82,11 @@ fn shapes_block<T: Real + Elem>(ctx: &mut Ctx, lens: &[usize], guard: bool) {
             pls.push(p);
         }
     }
-    ctx.flush_calls = guard;
-    ctx.chunk_events = !guard && lens[0] % 4 == 1;
+    // ill-shaped calls always run on guard-paged buffers: an out-of-bounds write must become a signal (a Crash
+    // event), never silent heap corruption of the harness
+    let _ = guard;
+    ctx.flush_calls = true;
+    ctx.chunk_events = lens[0] % 8 == 1;
     for &n in lens {
         for (pid, p) in pls.iter_mut() {
             let kind = p.kind();
@@ -103,11 +106,7 @@ fn shapes_block<T: Real + Elem>(ctx: &mut Ctx, lens: &[usize], guard: bool) {
                     let x: Vec<Complex<T>> = gen_input("uniform", sh.data, 0, &mut ctx.rng);
                     let out = vec![czero::<T>(); sh.out];
                     let scratch = vec![czero::<T>(); if e == Entry::Process { 0 } else { sh.scratch }];
-                    let g = if guard {
-                        Some(if (n + ci + ei) % 2 == 0 { Align::End } else { Align::Start })
-                    } else {
-                        None
-                    };
+                    let g = Some(if (n + ci + ei) % 2 == 0 { Align::End } else { Align::Start });
                     let plr = &pl;
                     let xin = x.clone();
                     ctx.call(&pl, e, &x, &out, &scratch, g, json!({"class": cname}), move |r| {
